@@ -558,7 +558,12 @@ def finalize_wrapper(plan, final_plan, *, pause_for_debug=False):
         raise
     except BaseException:
         if pause_for_debug:
-            yield from pause()
+            try:
+                yield from pause()
+            except GeneratorExit:
+                # closed (e.g. the RunEngine was halted) while paused for debugging
+                cleanup = False
+                raise
         raise
     finally:
         # if the exception raised in `GeneratorExit` that means
